@@ -586,3 +586,57 @@ def _(c):
         on="any",
     )
     c.ensures("post.no_direct_write", lambda fx: frames_written(fx) == [] and transport_writes(fx) == [], on="any")
+
+
+# ---------------------------------------------------------------------------
+# guarantee side of the await rule for AshProtocol (C01, C05)
+# ---------------------------------------------------------------------------
+from contracts import index as _index
+
+
+def _ash_guarantee(tier):
+    from pyvc.asyncrule import guarantee_obligations
+    from pyvc.contracts import REGISTRY
+
+    # _send_data_frame is the holder of the send semaphore (TX_K permits): it alone stores / pops keys
+    return guarantee_obligations(ASH, REGISTRY, owners=("_send_data_frame",))
+
+
+def _tx_k_is_one(tier):
+    """'at most one unacknowledged DATA frame is outstanding at any time': the semaphore built in
+    __init__ has TX_K permits and TX_K is 1 on this tree."""
+    import ast as _ast
+
+    from pyvc import source
+
+    node, _m, _h = source.find_function("bellows.ash.AshProtocol.__init__")
+    sem = [
+        _ast.unparse(s.value)
+        for s in _ast.walk(node)
+        if isinstance(s, _ast.Assign) and any(_ast.unparse(t_) == "self._send_data_frame_semaphore" for t_ in s.targets)
+    ]
+    ok = sem == ["asyncio.Semaphore(TX_K)"] and ash.TX_K == 1
+    return [{
+        "name": "bellows.ash.AshProtocol.__init__::table.one_outstanding_frame",
+        "verdict": "proved" if ok else "refuted", "backend": "live-constant", "t": 0.0,
+        "detail": f"semaphore construction {sem}, TX_K={ash.TX_K}", "witness": None if ok else {"TX_K": ash.TX_K, "sem": sem},
+    }]
+
+
+for _p in ("C01", "C05"):
+    _index.extra(_p)(_ash_guarantee)
+    _index.extra(_p)(_tx_k_is_one)
+
+
+@contract("bellows.ash.AshProtocol.send_reset", props=["C11", "C03"])
+def _(c):
+    c.self(ASH)
+    c.effect_name = "ash.send_reset"
+    c.raises("closed", ash.NcpFailure, when=lambda self: self._transport is None or self._transport.is_closing())
+    # "A reset request writes a CANCEL-prefixed RST frame"
+    c.ensures(
+        "post.cancel_prefixed_rst",
+        lambda fx: [(r[2][0], r[3]) for r in fx if r[0] == "ash.write_frame"]
+        == [(ash.RstFrame(), {"prefix": (ash.Reserved.CANCEL,)})],
+    )
+    c.modifies()
